@@ -14,6 +14,8 @@ package dns
 //@   ensures forbidden-third [C19]: !contains(srv.apiNames, domain) && !has(srv.instance.Config().Resolve, domain) && contains(srv.forbiddenNames, domain) ==> result1 == SourceForbidden
 //@   ensures friend-fourth [C19]: !contains(srv.apiNames, domain) && !has(srv.instance.Config().Resolve, domain) && !contains(srv.forbiddenNames, domain) && hassuffix(domain, config.DefaultDotTLD) && has(srv.instance.Config().FriendsByName, cutsuffix(domain, config.DefaultDotTLD)) ==> result1 == SourceFriend && result0 == srv.instance.Config().FriendsByName[cutsuffix(domain, config.DefaultDotTLD)].IP
 //@   ensures mappings-cannot-shadow [C19]: result1 == SourceMapping ==> !contains(srv.apiNames, domain) && !has(srv.instance.Config().Resolve, domain) && !contains(srv.forbiddenNames, domain) && !(hassuffix(domain, config.DefaultDotTLD) && has(srv.instance.Config().FriendsByName, cutsuffix(domain, config.DefaultDotTLD)))
+//@   ensures mapping-answers-come-from-the-store [C19]: result1 == SourceMapping ==> called("GetMapping")
+//@   ensures no-answer-only-after-asking-the-store [C19]: result1 == SourceNone && srv.mappings != nil ==> called("GetMapping")
 //@   ensures sources [C19]: result1 == SourceInternal || result1 == SourceResolveConfig || result1 == SourceForbidden || result1 == SourceFriend || result1 == SourceMapping || result1 == SourceNone
 
 // Only names under .myco, only address-type queries of class IN/ANY and only answers that come from a source are
